@@ -14,6 +14,7 @@ package main
 import (
 	"bytes"
 	"fmt"
+	"os"
 	"sort"
 	"strings"
 	"sync/atomic"
@@ -916,6 +917,12 @@ func uniByName(n string) *universe {
 }
 
 func main() {
+	for _, a := range os.Args[1:] {
+		if a == "-fsmhist-child" {
+			fsmHistChild()
+			return
+		}
+	}
 	if mc.IsWorker() {
 		// tag = "<universe>|<quick|thorough>"
 		mc.ServeWorker(func(j mc.BFSJob) mc.ExecResult {
@@ -995,6 +1002,8 @@ func main() {
 	cov["versioned_store_layouts"] = vsCases
 	cov["versioned_store_versions"] = nv
 	cov["depth_bound"] = depth
+	// part 3: the same statement at the level of the state machine (committees, delegates, blocks as of a committed height)
+	runFsmHistory(r, cov)
 	r.Finish(cov)
 }
 
@@ -1003,6 +1012,18 @@ func doReplay(r *mc.Run) {
 	if err := r.LoadReplay(&rp); err != nil {
 		fmt.Println("cannot load replay:", err)
 		r.Finish(map[string]any{"states": 1, "transitions": 1, "traces_validated_against_impl": 0})
+	}
+	var part struct {
+		Part string `json:"part"`
+	}
+	if _ = r.LoadReplay(&part); part.Part == "fsm-history" {
+		// the whole fixed history is the case: run it again (the child reports the first violation of every class)
+		cov := map[string]any{"states": 1, "transitions": 1, "traces_validated_against_impl": 1}
+		for i := 0; i < 5; i++ {
+			runFsmHistory(r, cov)
+		}
+		r.Finish(cov)
+		return
 	}
 	u := uniByName(rp.Universe)
 	alpha := alphabet(u, true)
